@@ -50,7 +50,7 @@ void pbt_run(const Case& cs, Ctx& ctx) {
     ctx.opIndex = idx++;
     int a = (int)(((op.a[0] % NH) + NH) % NH), b = (int)(((op.a[1] % NH) + NH) % NH);
     const std::string& nm = op.name;
-    if (nm == "make") { if (h[a]) k->destroy(h[a]); int p = (int)(op.a[3] & 1); h[a] = k->make(p); m[a] = k->initial(p); pay[a] = nextPay++; }
+    if (nm == "make") { if (h[a]) k->destroy(h[a]); int p = (int)(((op.a[3] % 3) + 3) % 3); h[a] = k->make(p); m[a] = k->initial(p); pay[a] = nextPay++; }
     else if (nm == "copy") { if (!h[a] || a == b) { ctx.count("skipped"); continue; } if (h[b]) k->destroy(h[b]); h[b] = k->copy(h[a]); m[b] = m[a]; pay[b] = pay[a]; ctx.label("copy"); }
     else if (nm == "assign") {
       if (!h[a] || !h[b]) { ctx.count("skipped"); continue; }
